@@ -21,7 +21,7 @@ pub fn configs() -> Vec<Cfg> {
         for &np in &INIT_PAGES {
             for strict in [false, true] {
                 for populate in [false, true] {
-                    v.push(Cfg { pagesize: ps, num_pages: np, strict, populate, owned_args: false });
+                    v.push(Cfg { pagesize: ps, num_pages: np, strict, populate, owned_args: false, direct: false });
                 }
             }
         }
